@@ -37,7 +37,7 @@ def shards(tier):
 
 
 def required_classes(tier):
-    return ["op:raising", "op:persist", "op:field", "op:field-adhoc", "op:curve", "op:pairing", "op:hash", "op:zcash", "op:bls", "op:secp", "history", "repeat-in-history", "adhoc-class-created-mid-history"]
+    return ["op:raising", "op:persist", "op:field", "op:field-adhoc", "op:curve", "op:pairing", "op:hash", "op:zcash", "op:bls", "op:secp", "history", "history:concurrent", "repeat-in-history", "adhoc-class-created-mid-history"]
 
 
 def cs_mod():
@@ -185,6 +185,9 @@ def build_pool(seed, quick):
             add("hash", "hash_to_G2[%d,%d]" % (i, j), 1, lambda m=m, d=d: (h2c.hash_to_G2, [m, d, HASHES["sha256"]]))
             add("hash", "hash_to_G1[%d,%d]" % (i, j), 1, lambda m=m, d=d: (h2c.hash_to_G1, [m, d, HASHES["sha256"]]))
         add("hash", "hkdf[%d]" % i, 1, lambda m=m: ((lambda s, k: hm.hkdf_expand(hm.hkdf_extract(s, k), b"info", 80)), [bytearray(b"salt"), m]))
+    for j, d in enumerate(dsts):
+        for hn in ("sha256", "sha3_256", "sha512"):
+            add("hash", "xmd-long[%d,%s]" % (j, hn), 0.4, lambda d=d, hn=hn: (hm.expand_message_xmd, [b"long output", d, 255 * HASHES[hn]().digest_size, HASHES[hn]]))
     long_m = rng.randbytes(400)
     for j, m_ in enumerate((long_m, hashlib.sha256(long_m).digest(), hashlib.sha512(long_m).digest(), long_m[:32])):
         add("hash", "hash_to_G2(related message %d)" % j, 1.5, lambda m_=m_: (h2c.hash_to_G2, [m_, dsts[1], HASHES["sha256"]]))
@@ -284,6 +287,16 @@ def build_pool(seed, quick):
     add("raising", "decompress_G2(bad second word)", 1, lambda: (pc.decompress_G2, [((1 << 383) | 5, 1 << 383)]))
     add("raising", "Aggregate(second entry undecodable)", 1, lambda: (cs.G2Basic.Aggregate, [[MB.sign("basic", 3, b"message"), b"\xff" * 96]]))
     add("raising", "Aggregate(third entry short)", 1, lambda: (cs.G2ProofOfPossession.Aggregate, [[MB.sign("pop", 3, b"message"), MB.sign("pop", 3, b""), b"\x00" * 95]]))
+    # calls that fail in the MIDDLE of an operation (after part of the work has been done), and calls cut short from outside
+    obn = importlib.import_module("py_ecc.optimized_bn128")
+    add("raising", "opt FQ2 * FQ12 (operands of different degree)", 2, lambda: ((lambda a, b: a * b), [ob.FQ2([3, 4]), ob.FQ12(list(range(1, 13)))]))
+    add("raising", "opt bn128 FQ2 * FQ12", 1, lambda: ((lambda a, b: a * b), [obn.FQ2([3, 4]), obn.FQ12(list(range(1, 13)))]))
+    add("raising", "opt FQ12 * FQ12(junk coefficient)", 2, lambda: (_junk_product, ["optimized_bls12_381", 12]))
+    add("raising", "opt FQ2 * FQ2(junk coefficient)", 1, lambda: (_junk_product, ["optimized_bls12_381", 2]))
+    add("raising", "opt bn128 FQ12 * FQ12(junk coefficient)", 1, lambda: (_junk_product, ["optimized_bn128", 12]))
+    add("raising", "pairing cut short by a timeout (bls12-381)", 1, lambda: (_interrupted, ["bls"]))
+    add("raising", "pairing cut short by a timeout (bn128)", 1, lambda: (_interrupted, ["bn"]))
+    add("raising", "Verify cut short by a timeout", 1, lambda: (_interrupted, ["verify"]))
     add("raising", "SkToPk(r)", 1, lambda: (cs.G2Basic.SkToPk, [Sb.r]))
     # ---- secp256k1
     sp = importlib.import_module("py_ecc.secp256k1.secp256k1")
@@ -298,6 +311,57 @@ def build_pool(seed, quick):
     add("secp", "add(G, 2G)", 1, lambda: (sp.add, [sp.G, sp.multiply(sp.G, 2)]))
     add("secp", "recover(bad v)", 0.5, lambda: (sp.ecdsa_raw_recover, [bytes(32), (29, 1, 1)]))
     return pool
+
+
+class _CutShort(Exception):
+    pass
+
+
+def _junk_product(modname, deg):
+    """x * y where one coefficient of y is not a number: the product raises half-way through."""
+    cls = getattr(importlib.import_module("py_ecc." + modname), "FQ%d" % deg)
+    x = cls(list(range(2, 2 + deg)))
+    try:
+        y = cls([x.coeffs[0].__class__(5) if not isinstance(x.coeffs[0], int) else 5] + [7] * (deg - 1))
+        y.coeffs = tuple(list(y.coeffs[: deg // 2]) + [None] + list(y.coeffs[deg // 2 + 1:])) if isinstance(y.coeffs, tuple) else list(y.coeffs[: deg // 2]) + [None] + list(y.coeffs[deg // 2 + 1:])
+    except Exception:
+        raise _CutShort("could not build the operand")
+    return x * y
+
+
+_INTERRUPT_ARGS = {}
+
+
+def _interrupted(which):
+    """A service-style timeout: the call is abandoned by an exception raised from a timer signal while it is inside the library
+    (main thread only).  Outcome is always the _CutShort exception; what matters is what later calls return."""
+    import signal
+    import threading
+    if threading.current_thread() is not threading.main_thread():
+        raise _CutShort("timeouts by signal only exist in the main thread")
+    if which not in _INTERRUPT_ARGS:
+        from ..model import bls as _MB
+        ob_ = importlib.import_module("py_ecc.optimized_bls12_381")
+        obn_ = importlib.import_module("py_ecc.optimized_bn128")
+        _INTERRUPT_ARGS["bls"] = (ob_.pairing, ob_.multiply(ob_.G2, 5), ob_.multiply(ob_.G1, 7))
+        _INTERRUPT_ARGS["bn"] = (obn_.pairing, obn_.multiply(obn_.G2, 5), obn_.multiply(obn_.G1, 7))
+        _INTERRUPT_ARGS["verify"] = (cs_mod().G2Basic.Verify, _MB.sk_to_pk(11), b"interrupted", _MB.sign("basic", 11, b"interrupted"))
+
+    def on_alarm(signum, frame):
+        raise _CutShort("timeout")
+    old_h = signal.getsignal(signal.SIGALRM)
+    old_t = signal.setitimer(signal.ITIMER_REAL, 0)
+    signal.signal(signal.SIGALRM, on_alarm)
+    try:
+        signal.setitimer(signal.ITIMER_REAL, 0.06 if which != "verify" else 0.25)
+        _INTERRUPT_ARGS[which][0](*_INTERRUPT_ARGS[which][1:])
+        signal.setitimer(signal.ITIMER_REAL, 0)
+        raise _CutShort("the call finished before the timeout")
+    finally:
+        signal.setitimer(signal.ITIMER_REAL, 0)
+        signal.signal(signal.SIGALRM, old_h)
+        if old_t and old_t[0] > 0:
+            signal.setitimer(signal.ITIMER_REAL, max(1.0, old_t[0]))
 
 
 # ------------------------------------------------------------------------------------------------ online monitor
@@ -342,6 +406,33 @@ class Purity:
                 v = {kk: vv for kk, vv in v.items() if kk in sh}
             out[k] = D.canon(v)
         return out, D.registry_digest(out)
+
+    @staticmethod
+    def measure(fn, args):
+        """The part of an observation that may run in any thread: digests of the arguments before and after, outcome."""
+        before = [D.dg(a) for a in args]
+        try:
+            res = ("ok", fn(*args))
+        except Exception as e:
+            res = ("exc", e)
+        after = [D.dg(a) for a in args]
+        return before, after, (D.dg(res[1]) if res[0] == "ok" else "exc:" + type(res[1]).__name__)
+
+    def judge_threaded(self, hist, seq, name, before, after, rdig):
+        """Main thread, after the threads have been joined: argument check and event for the offline checker."""
+        self.rec.check("M-pure.args", before == after, "args", "%s mutated its argument #%s (concurrent history)" % (name, [i for i, (x, y) in enumerate(zip(before, after)) if x != y]),
+                       case={"op": name, "history": hist, "seq": seq}, facts={"op": name.split("[")[0], "kind": "argument-mutated"})
+        return [hist, seq, name, hashlib.sha256("|".join(before).encode()).hexdigest()[:16], rdig, self.reg0_digest]
+
+    def registry_check(self, name, case):
+        reg, rd = self.registry_now()
+        if rd != self.reg0_digest:
+            diff = D.registry_diff(self.reg0, reg)
+            self.rec.check("M-pure.registry", False, "registry", "%s changed module-level state: %s" % (name, ", ".join(diff[:6])), case=case,
+                           facts={"op": name.split("[")[0], "kind": "constant-mutated", "what": diff[:3]})
+            self.reg0, self.reg0_digest = reg, rd
+        else:
+            self.rec.ok("M-pure.registry")
 
     def call(self, hist, seq, group, name, fn, args):
         rec = self.rec
@@ -405,6 +496,53 @@ def run(rec):
                 rec.case("adhoc-class-created-mid-history", None, nontrivial=False)
             rec.case("op:" + group, None, nontrivial=False, sample={"op": name, "history": hist, "seq": seq} if seq < 2 else None)
             events.append(mon.call(hist, seq, group, name, fn, args))
+    # ---- a concurrent history: the same pool, several threads inside the library at once ("any interleaving of other calls")
+    if rec.shard % 2 == 0 or not quick:
+        import threading
+        n_thr = 4
+        fresh_persistent_objects()
+        usable = [oi for oi, (g, nm, w, mk) in enumerate(pool) if g not in ("persist", "field-adhoc") and "timeout" not in nm]
+        uw = [pool[oi][2] for oi in usable]
+        plans = [rng.choices(usable, weights=uw, k=(n_calls // 3 if quick else n_calls // 2)) for _ in range(n_thr)]
+        for t in range(1, n_thr):
+            plans[t][: len(plans[0]) // 3] = plans[0][: len(plans[0]) // 3][::-1]            # the same operations in several threads, other order
+        # second part of every thread's plan: all hashing operations (short calls that share nothing but the library), every thread in
+        # another rotation, so that calls with different tags / hash functions / lengths overlap
+        hash_ops = [oi for oi in usable if pool[oi][0] == "hash"]
+        for t in range(n_thr):
+            for rep in range(2 if quick else 8):
+                k0 = (t * 7 + rep * 3) % max(1, len(hash_ops))
+                plans[t] += hash_ops[k0:] + hash_ops[:k0]
+        prepared = [[(pool[oi][1], pool[oi][3]()) for oi in plan] for plan in plans]       # argument objects are built single-threaded by the harness
+        measured = [[] for _ in range(n_thr)]
+        gate = threading.Barrier(n_thr)
+
+        def worker(t):
+            try:
+                gate.wait(timeout=60)
+            except threading.BrokenBarrierError:
+                pass
+            for name, (fn, args) in prepared[t]:
+                measured[t].append((name,) + Purity.measure(fn, args))
+        old_si = sys.getswitchinterval()
+        sys.setswitchinterval(2e-5)
+        try:
+            ths = [threading.Thread(target=worker, args=(t,), daemon=True) for t in range(n_thr)]
+            for th in ths:
+                th.start()
+            for th in ths:
+                th.join()
+        finally:
+            sys.setswitchinterval(old_si)
+        for t in range(n_thr):
+            hist = "shard%d/threads/t%d" % (rec.shard, t)
+            for seq, (name, before, after, rdig) in enumerate(measured[t]):
+                rec.case("history:concurrent", None, nontrivial=False, sample={"op": name, "history": hist, "seq": seq} if seq < 1 and t < 2 else None)
+                events.append(mon.judge_threaded(hist, seq, name, before, after, rdig))
+        mon.registry_check("concurrent history", {"op": "concurrent history", "history": "shard%d/threads" % rec.shard})
+        rec.event("concurrent-history:threads", n_thr)
+        rec.event("concurrent-history:calls", sum(len(m) for m in measured))
+    rec.case("history:concurrent", None, nontrivial=False)
     rec.blob = {"events": events, "registry_import_digest": mon.reg0_digest, "pool_size": len(pool), "io_events": dict(mon.io_events),
                 "hashseed": __import__("os").environ.get("PYTHONHASHSEED")}
     rec.notes["io_audit_events_inside_calls"] = dict(mon.io_events)
